@@ -109,6 +109,7 @@ type Program struct {
 	Body       []Stmt
 	NotAllowed bool // HandleMethodNotAllowed
 	CacheCap   int  // -1 off
+	PanicHook  bool // install an OnPanic hook (status 500)
 
 	// computed by Model()
 	Globals    []*MW
@@ -163,7 +164,7 @@ func describeStmts(body []Stmt, indent string, out *[]string) {
 func (p *Program) Describe() any {
 	var out []string
 	describeStmts(p.Body, "", &out)
-	return map[string]any{"HandleMethodNotAllowed": p.NotAllowed, "cache_capacity": p.CacheCap, "program": out}
+	return map[string]any{"HandleMethodNotAllowed": p.NotAllowed, "cache_capacity": p.CacheCap, "OnPanic_hook": p.PanicHook, "program": out}
 }
 
 // ----- reference scope model -----
@@ -309,6 +310,12 @@ func (p *Program) Build(extra ...func(*rux.Router)) *rux.Router {
 	exec(p.Body)
 	for _, f := range atEnd {
 		f()
+	}
+	if p.PanicHook {
+		r.OnPanic = func(c *rux.Context) {
+			recOf(c).Ev("hook")
+			c.SetStatus(500)
+		}
 	}
 	return r
 }
